@@ -123,7 +123,7 @@ theorem C08_clean_trace_table (mbs : List (Msg × Nat)) (hF : FitsAll {} (fun _ 
     rw [hem] at hl'
     exact oldList_ecu _ _ e hi.map l hl'
   have hpub := assocGet_mem _ _ _ (t1 l hlive)
-  refine ⟨{ id := l.id, ecu := l.ecu, n := l.nrMsgs, start := l.start, endT := l.endTime, resume := l.resume.isSome }, ?_,
+  refine ⟨{ id := l.id, ecu := l.ecu, n := l.nrMsgs, start := l.start, endT := l.endTime, resume := l.resume.isSome, key := l.resumeStart }, ?_,
     hsig.1, hecu, hsig.2.2.2, hsig.2.1, ?_⟩
   · simp only [observe, List.mem_map]
     exact ⟨(l.id, l), hpub, rfl⟩
